@@ -7,11 +7,11 @@ from harness.refserver import Server
 from harness.props.C02 import render_py
 
 PROP = "C05"
-GEN = ["Handlers"]
+GEN = ["Handlers", "Wrappers"]
 VO = ["Properties/C05.vo", "Extract/D_Client.vo", "Extract/D_Server.vo"]
 MODULE = "Properties.C05"
 THEOREMS = ["c05_store_partial", "c05_delete_partial", "c05_touch_partial", "c05_flush_partial", "c05_arith_partial", "c05_noreply_effect", "c05_reply_iff",
-            "c05_e2e_delete", "c05_e2e_touch", "c05_e2e_flush", "c05_e2e_arith", "c05_e2e_store", "c05_e2e_cas", "c05_e2e_set_many", "c05_e2e_delete_many", "c05_e2e_gat", "c05_e2e_gats", "c05_gat_retimes"]
+            "c05_e2e_delete", "c05_e2e_touch", "c05_e2e_flush", "c05_e2e_arith", "c05_e2e_store", "c05_e2e_cas", "c05_e2e_set_many", "c05_e2e_delete_many", "c05_e2e_gat", "c05_e2e_gats", "c05_gat_retimes", "c05_noreply_defaults"]
 DRIVER = "D_Client"
 TECHNIQUE = ("Coq proof: a specification server (in-memory map with expiry and cas versions); for every state of it the client's "
              "reading of the reply line is the documented result of what the server did; end to end on the Client model (Hoare "
@@ -194,12 +194,46 @@ KEYS = [b"a", b"b", "c", b"n"]
 VALS = [b"v", b"w", b"5", b"18446744073709551615", "txt", 7, b"x\r\ny", b""]
 
 
+OMIT = "omit"        # the noreply argument is not passed at all: the operation's documented default applies
+NOREPLY_AT = {0: 5, 1: 3, 2: 5, 9: 2, 10: 3, 11: 3, 12: 3, 13: 3, 14: 2}
+DOCUMENTED_DEFAULT = {2: False, 11: False, 12: False}       # cas, incr, decr wait for their reply unless told otherwise; the others follow default_noreply (None)
+
+
+def apply_maybe_omitted(cl, op):
+    code = op[0]
+    if code not in NOREPLY_AT or op[NOREPLY_AT[code]] != OMIT:
+        return cs.apply_op(cl, op)
+    if code == 0:
+        return getattr(cl, cs.VERBS[op[1]])(op[2], op[3], op[4])
+    if code == 1:
+        return cl.set_many(dict(op[1]), op[2])
+    if code == 2:
+        return cl.cas(op[1], op[2], op[3], op[4])
+    if code == 9:
+        return cl.delete(op[1])
+    if code == 10:
+        return cl.delete_many(list(op[2]))
+    if code in (11, 12):
+        return (cl.incr if code == 11 else cl.decr)(op[1], op[2])
+    if code == 13:
+        return cl.touch(op[1], op[2])
+    return cl.flush_all(op[1])
+
+
+def as_documented(op):
+    code = op[0]
+    if code in NOREPLY_AT and op[NOREPLY_AT[code]] == OMIT:
+        i = NOREPLY_AT[code]
+        return tuple(op[:i]) + (DOCUMENTED_DEFAULT.get(code),) + tuple(op[i + 1:])
+    return op
+
+
 def random_history(rng, n):
     ops = []
     for _ in range(n):
         r = rng.random()
         k = rng.choice(KEYS)
-        nr = rng.choice([None, None, True, False])
+        nr = rng.choice([None, None, True, False, OMIT, OMIT])
         e = rng.choice([0, 0, 0, 2, 5, -1, 100, REL + 5000])
         if r < 0.1:
             ops.append(("tick", rng.choice([1, 2, 3, 6, 100])))
@@ -208,7 +242,7 @@ def random_history(rng, n):
         elif r < 0.42:
             ops.append((1, list({rng.choice(KEYS): rng.choice(VALS) for _ in range(rng.randrange(1, 4))}.items()), e, nr, None))
         elif r < 0.52:
-            ops.append((2, k, rng.choice(VALS), rng.choice([1, 2, 3, b"4", "5", 6, 7, 8]), e, rng.choice([False, False, True]), None))
+            ops.append((2, k, rng.choice(VALS), rng.choice([1, 2, 3, b"4", "5", 6, 7, 8]), e, rng.choice([False, False, True, OMIT, OMIT]), None))
         elif r < 0.6:
             ops.append((3, k, b"dflt"))
         elif r < 0.68:
@@ -224,7 +258,7 @@ def random_history(rng, n):
         elif r < 0.89:
             ops.append((10, False, rng.sample(KEYS, rng.randrange(0, 3)), nr))
         elif r < 0.95:
-            ops.append((rng.choice([11, 12]), k, rng.choice([0, 1, 3, 2 ** 64 - 1]), rng.choice([False, False, True])))
+            ops.append((rng.choice([11, 12]), k, rng.choice([0, 1, 3, 2 ** 64 - 1]), rng.choice([False, False, True, OMIT])))
         elif r < 0.99:
             ops.append((13, k, e, nr))
         else:
@@ -259,10 +293,10 @@ def run_history(stack, c, ops):
             continue
         world.current_op = i
         try:
-            got = ("o", cs.canon_value(cs.apply_op(cl, op)))
+            got = ("o", cs.canon_value(apply_maybe_omitted(cl, op)))
         except BaseException as e:  # noqa
             got = ("e", core.exn_name(e))
-        exp = canon(oracle.apply(op))
+        exp = canon(oracle.apply(as_documented(op)))
         if stack == "HashClient" and op[0] == 14:
             exp = ("o", cs.canon_value(None))       # HashClient.flush_all is documented to return None
         if got != exp:
